@@ -66,7 +66,7 @@ fn parse_case(lines: &[String]) -> Option<Case> {
 }
 
 fn setup(c: &Case) -> (Dispatch, Vec<tracing_capture::SharedStorage>, Vec<Option<(tracing_core::span::Id, usize)>>) {
-    let cfg = Config { layers: vec![c.filter.clone()], global: None, pass: vec![], per_layer: false };
+    let cfg = Config { layers: vec![c.filter.clone()], global: None, pass: vec![], per_layer: false, nested: false };
     let (dispatch, storages) = cfg.build();
     let mut main = Runner::new(&c.sites);
     dispatcher::with_default(&dispatch, || {
@@ -296,7 +296,7 @@ fn shared_handles(ops: &[POp], n_shared: usize) -> Vec<Option<usize>> {
 fn run_storm(c: &Case, n: usize, m: usize, out: &mut Outcome) {
     let site = Site { is_span: true, level: 2, name: "shared".into(), target: "app".into(), module_path: None, file: None, line: None, fields: (0..n).map(|i| format!("t{i}")).collect() };
     let meta = crate::dynsite::metadata_for(&site);
-    let cfg = Config { layers: vec![c.filter.clone()], global: None, pass: vec![], per_layer: false };
+    let cfg = Config { layers: vec![c.filter.clone()], global: None, pass: vec![], per_layer: false, nested: false };
     let (dispatch, storages) = cfg.build();
     let storage = storages[0].clone();
     let span = dispatcher::with_default(&dispatch, || {
